@@ -232,15 +232,97 @@ def has_limits(classes):
     return any(c.get("opts", {}).get("max_depth") is not None for c in classes)
 
 
+def walk_instances(r, cls_list, out):
+    """data-class instances of a parsed tree in pre-order (declaration order of fields, container order)"""
+    from utype import Schema
+    if isinstance(r, Schema):
+        out.append((r, cls_list.index(type(r))))
+        for name in type(r).__parser__.fields:
+            walk_instances(r.get(name), cls_list, out)
+    elif isinstance(r, (list, tuple)):
+        for x in r:
+            walk_instances(x, cls_list, out)
+    elif isinstance(r, dict):
+        for x in r.values():
+            walk_instances(x, cls_list, out)
+    return out
+
+
+def step_field(classes, step):
+    f = step["field"]
+    if isinstance(f, str):
+        return f
+    fields = classes[step["cls"]]["fields"]
+    return fields[f % len(fields)][0] if fields else "zz"
+
+
+def run_step(cls_list, classes, root, entry, value_desc, step, fresh=False):
+    """second step after a parse: an assignment (attribute / item / update / |=) on the nth instance of class `cls`
+    of the tree just parsed — or on a directly constructed instance (`fresh`) —, or a re-parse of that instance"""
+    from utype import exc, type_transform
+    K = cls_list[root]
+    value = build_value(value_desc)
+    try:
+        tree = K(**value) if entry == "init" else (K.__from__(value) if entry == "from" else type_transform(value, K))
+    except Exception:
+        return None
+    kx = step["cls"]
+    cands = [o for o, k in walk_instances(tree, cls_list, []) if k == kx]
+    nested = bool(cands) and not fresh
+    inst = cands[step["nth"] % len(cands)] if nested else cls_list[kx]()
+    fname = step_field(classes, step)
+    w = build_value(step["value"])
+    op = step["op"]
+    _STATE["count"] = 0
+    try:
+        if op == "setattr":
+            if fname == "zz":
+                inst[fname] = w
+            else:
+                setattr(inst, fname, w)
+        elif op == "setitem":
+            inst[fname] = w
+        elif op == "update":
+            inst.update({fname: w})
+        elif op == "ior":
+            inst |= {fname: w}
+        elif op == "reparse":
+            # a sub-value taken out of the accepted tree is parsed again on its own
+            data = {k: v for k, v in inst.items() if v is not None}
+            again = cls_list[kx].__from__(data) if step["nth"] % 2 else type_transform(inst, cls_list[kx])
+            return {"ok": canon(again, cls_list) == canon(inst, cls_list), "cost": _STATE["count"], "nested": nested}
+        else:
+            raise ValueError(op)
+        return {"ok": canon(inst.get(fname), cls_list), "cost": _STATE["count"], "nested": nested}
+    except exc.ParseError as e:
+        return {"err": "depth" if has_depth(e) else "parse", "cost": _STATE["count"], "nested": nested}
+    except RecursionError:
+        return {"escape": "RecursionError", "cost": _STATE["count"], "nested": nested}
+    except Exception as e:
+        return {"escape": type(e).__name__, "cost": _STATE["count"], "nested": nested}
+
+
 def impl(case):
     value = build_value(case["value"])
-    out = {"lim": run_one(build_classes(case["classes"]), case["root"], case.get("entry", "init"), value)}
+    entry = case.get("entry", "init")
+    lim_cls = build_classes(case["classes"])
+    out = {"lim": run_one(lim_cls, case["root"], entry, value)}
     if case.get("cyc"):
         return out          # the unlimited twin of a cyclic input does not terminate by design
     if has_limits(case["classes"]):
-        out["unl"] = run_one(build_classes(strip_limits(case["classes"])), case["root"], case.get("entry", "init"), value)
+        unl_cls = build_classes(strip_limits(case["classes"]))
+        out["unl"] = run_one(unl_cls, case["root"], entry, value)
     else:
+        unl_cls = lim_cls
         out["unl"] = out["lim"]
+    if case.get("steps"):
+        out["steps"] = []
+        for st in case["steps"]:
+            out["steps"].append({
+                "lim": run_step(lim_cls, case["classes"], case["root"], entry, case["value"], st) if "ok" in out["lim"] else None,
+                "unl": run_step(unl_cls, case["classes"], case["root"], entry, case["value"], st) if "ok" in out["unl"] else None,
+                "fresh": run_step(lim_cls, case["classes"], case["root"], entry, case["value"], st, fresh=True) if "ok" in out["lim"] else None,
+            })
     return out
 
 
@@ -792,6 +874,9 @@ def gen_random_case(rng, cyc=False):
     if v is None or "d" not in v or any(not isinstance(k, str) for k, _ in v["d"]):
         entry = rng.choice(["from", "transform"])
     case = {"classes": classes, "root": root, "entry": entry, "value": v, "fam": "cyc/random" if cyc else "random"}
+    if not cyc and rng.random() < 0.3:
+        case["steps"] = random_steps(rng, classes)
+        case["fam"] = "random+assign"
     if cyc:
         case["cyc"] = True
         # the cycle re-enters the same class through the same fields: with unambiguous unions the reading is forced
@@ -876,6 +961,45 @@ def wrapped_cycle_case(pos, md, tuple_wrap=False, mode=0):
     v = {"d": [["v", {"t": 0}], ["nx", wrap(inner)]]}
     return {"classes": classes, "root": 0, "entry": "init", "value": v, "cyc": True, "cyc_forced": not (mode & 1) or True,
             "fam": "wrappedcycle/" + pos}
+
+
+OPS = ("setattr", "setitem", "update", "ior")
+
+
+def assign_case(pos, k, md, level, m, op, leaf_kind=GOOD, entry="init", mode=0):
+    """parse a chain of k levels, take the instance at `level` (1 = root) and assign to it: m = 0 a scalar to `v`,
+    m >= 1 a chain of m levels (wrapped for the position) to `nx`; plus a re-parse of that instance"""
+    case = chain_case(pos, k, md, GOOD, entry, mode=mode)
+    ty, wrap = positions()[pos]
+    if m == 0:
+        step = {"op": op, "cls": 0, "nth": level - 1, "field": "v", "value": {"t": leaf_kind}}
+    else:
+        w = {"d": [["v", {"t": leaf_kind}]]}
+        for _ in range(m - 1):
+            w = {"d": [["v", {"t": 0}], ["nx", wrap(w)]]}
+        step = {"op": op, "cls": 0, "nth": level - 1, "field": "nx", "value": wrap(w)}
+    case["steps"] = [step, {"op": "reparse", "cls": 0, "nth": level - 1, "field": 0, "value": None}]
+    case["fam"] = "assign/" + pos
+    return case
+
+
+def random_steps(rng, classes):
+    steps = []
+    for _ in range(rng.choice([1, 1, 2])):
+        kx = rng.randrange(len(classes))
+        fields = classes[kx]["fields"]
+        if rng.random() < 0.12:
+            steps.append({"op": "reparse", "cls": kx, "nth": rng.randrange(6), "field": 0, "value": None})
+            continue
+        if fields and rng.random() < 0.95:
+            i = rng.randrange(len(fields))
+            ctx = {"stack": [], "cyc": False, "refs": 0}
+            w = gen_val(rng, classes, fields[i][1], rng.choice([0, 1, 1, 2, 3, 4]), rng.choice([0.0, 0.0, 0.1]), ctx)
+            field = i
+        else:
+            w, field = tok(GOOD, rng), "zz"
+        steps.append({"op": rng.choice(OPS), "cls": kx, "nth": rng.randrange(6), "field": field, "value": w})
+    return steps
 
 
 def exp_case(k, pos="optional", md=None):
@@ -977,6 +1101,19 @@ def static_obligations(repo) -> list[str]:
         }.items():
             if _norm(ast.parse(s).body[0].value) not in d:
                 broken.append(f"static: rule.py logical_parse: {what} `{s}` not found")
+    try:
+        schm = ast.parse((repo / "utype/schema.py").read_text())
+    except Exception as e:      # pragma: no cover
+        schm = None
+        broken.append(f"static: cannot read utype/schema.py: {e}")
+    if schm is not None:
+        want_ctx = _src("context = self.__parser__.make_context(force_error=True)")
+        for fn in ("__field_setter__", "__setitem__"):
+            node = _find(schm, "Schema", fn)
+            made = [_norm(n) for n in ast.walk(node) if isinstance(n, ast.Assign) and "make_context" in _norm(n)] if node else []
+            if not made or any(m != want_ctx for m in made):
+                broken.append(f"static: schema.py Schema.{fn} no longer starts from a fresh context "
+                              "`self.__parser__.make_context(force_error=True)`")
     tdc = _find(clsm, "transform_dataclass")
     if not tdc:
         broken.append("static: cls.py transform_dataclass not found")
@@ -1021,7 +1158,9 @@ class C18(Check):
             "(c) cyclic inputs — through data-class fields, through single-item lists / tuples standing for a mapping, and built "
             "from lists / tuples alone (x=[x], x=[(x,)], x=[[x]]) at every position —, (d) a single invalid leaf below k levels, "
             "(e) JSON-like unions nested through containers without a data class, depth 1..12, valid / lossy / invalid leaf; "
-            "entry points K(**d), K.__from__, type_transform. "
+            "entry points K(**d), K.__from__, type_transform; (f) second steps after the parse: setattr / setitem / update / |= on the "
+            "n-th instance of the parsed tree at every level (also on the unlimited twin and on a directly constructed instance) "
+            "and re-parse of sub-values taken out of the tree. "
             "Every case runs with the declared limits and with all limits removed.  non-trivial = the input reaches a nested "
             "data class (result or input nesting >= 2) or is cyclic; distinct by (declaration, input, entry)")
     assumptions = [
@@ -1044,6 +1183,11 @@ class C18(Check):
             out += [chain_case(p, 1, md, cyc=True) for p in POS_NAMES if p != "wrapped-scalar" for md in (1, 3)]
             out += [exp_case(k) for k in range(1, 8)]
             out += [exp_case(k, "list-opt-0") for k in (2, 4, 6)]
+            # second steps: assignment (attribute / item / update / |=) on the instance at every level of a parsed tree
+            out += [assign_case(p, k, md, lv, m, OPS[(k + lv + m + i) % 4]) for i, p in enumerate(POS_NAMES)
+                    for md, k in ((3, 3), (3, 2), (2, 2), (None, 3)) for lv in range(1, k + 1) for m in (0, 1, 2)]
+            out += [assign_case("optional", 3, 3, lv, m, op, kind, e) for lv in (1, 2, 3) for m in (0, 1) for op in OPS
+                    for kind in (GOOD, BAD) for e in ("from", "transform")]
             # unions nested through containers, no data class in between: depth 2..12
             out += [nested_union_case(n, kind, mode) for n in (2, 4, 6, 8, 10, 12) for kind in (BAD, LOSSY, CAST, GOOD)
                     for mode in (0, 1, 2, 3)]
@@ -1060,6 +1204,9 @@ class C18(Check):
                     for m, e in ((1, "init"), (2, "transform"), (3, "init"))]
             out += [wrapped_cycle_case(p, md, tw) for p in POS_NAMES for md in (1, 3) for tw in (False, True)]
         elif tier == "thorough":
+            out += [assign_case(p, k, md, lv, m, op, kind, "init", mode) for p in POS_NAMES for md in (1, 2, 3, 4, None)
+                    for k in (1, 2, 3, 4) if md is None or k <= md for lv in range(1, k + 1) for m in (0, 1, 2, 3)
+                    for op, kind, mode in (("setattr", GOOD, 0), ("setitem", GOOD, 1), ("update", BAD, 0), ("ior", LOSSY, 2))]
             out += [nested_union_case(n, kind, mode, shape) for n in range(1, 13) for kind in (BAD, LOSSY, CAST, GOOD)
                     for mode in (0, 1, 2, 3) for shape in ("list", "dict", "tuple", "mixed")]
             out += [nested_union_case(n, kind, mode, "list", with_none=True, extra=e) for n in range(1, 13)
@@ -1091,6 +1238,8 @@ class C18(Check):
     def model_line(self, case):
         line = {"classes": case["classes"], "root": case["root"], "entry": case.get("entry", "init"),
                 "value": norm(case["value"]), "legacy": False}
+        if case.get("steps"):
+            line["steps"] = [dict(st, value=norm(st["value"])) for st in case["steps"] if st["op"] != "reparse"]
         if case.get("cyc"):
             lims = [c.get("opts", {}).get("max_depth") or 0 for c in case["classes"]]
             # one turn of a cycle passes a data-class level (or, read as a plain container, a level of a finite
@@ -1133,6 +1282,22 @@ class C18(Check):
             if not self._same(io[which], mo[which]):
                 return (f"{'declared limits' if which == 'lim' else 'limits removed'}: implementation "
                         f"{_short(io[which])} vs model {_short(mo[which])}")
+        msteps = iter(mo.get("steps") or [])
+        for st, ist in zip(case.get("steps") or [], io.get("steps") or []):
+            if st["op"] == "reparse":
+                continue
+            mst = next(msteps, None)
+            if mst is None:
+                return "driver gave no answer for an assignment step"
+            if not modelled(case["classes"], {"data": st["cls"]}, {"d": [[step_field(case["classes"], st), norm(st["value"])]]}
+                            if step_field(case["classes"], st) != "zz" else None):
+                continue
+            for which in ("lim", "unl"):
+                if ist.get(which) is None and mst.get(which) is None:
+                    continue
+                if ist.get(which) is None or mst.get(which) is None or not self._same(ist[which], mst[which]):
+                    return (f"assignment {st['op']} ({'declared limits' if which == 'lim' else 'limits removed'}): implementation "
+                            f"{_short(ist.get(which))} vs model {_short(mst.get(which))}")
         return None
 
     # ---- the property, on what the implementation returned ----
@@ -1162,9 +1327,24 @@ class C18(Check):
                         f"{[limit_of(classes, k) for k in range(len(classes))]} but the value is {got} ({_short(lim)})")
             if "ok" in lim and "ok" in unl and lim["ok"] != unl["ok"] and not decl_ambiguous(classes):
                 return "max_depth changed the result of an accepted value"
+        # -- second steps: assignments on instances taken from the parsed tree, re-parses of its sub-values --
+        for st, ist in zip(case.get("steps") or [], io.get("steps") or []):
+            why = self.spec_step(classes, st, ist)
+            if why:
+                return why
         # -- cost bounded --
         value = norm(case["value"])
         probe = unfold(value, max(8, decl_height(classes) + 2)) if case.get("cyc") else value
+        for which, o in (("declared limits", lim), ("limits removed", unl)):
+            why = self.cost_verdict(classes, probe, o, which)
+            if why:
+                return why
+        return None
+
+    @staticmethod
+    def cost_verdict(classes, probe, o, which):
+        if o is None:
+            return None
         if decl_data_under_union(classes):
             # region of the known finding: a generous polynomial
             bound, formula = cost_bound(classes, probe), "weight*size*(depth+1)^2"
@@ -1172,10 +1352,48 @@ class C18(Check):
             # no union restarts its stages below it: the Lean theorem C18_cost_poly_partial gives weight*size for the
             # unchanged code; the oracle allows twice that
             bound, formula = 2 * decl_weight(classes) * vsize(probe), "2*weight*size"
-        for which, o in (("declared limits", lim), ("limits removed", unl)):
-            if o is not None and o.get("cost", 0) > bound:
-                return (f"cost: {o['cost']} leaf conversions ({which}) for an input of size {vsize(probe)}, "
-                        f"depth {vdepth(probe)} exceeds {formula} = {bound}")
+        if o.get("cost", 0) > bound:
+            return (f"cost: {o['cost']} leaf conversions ({which}) for an input of size {vsize(probe)}, "
+                    f"depth {vdepth(probe)} exceeds {formula} = {bound}")
+        return None
+
+    def spec_step(self, classes, st, ist):
+        lim, unl, fresh = ist.get("lim"), ist.get("unl"), ist.get("fresh")
+        if lim is None:
+            return None
+        where = "an instance taken out of the parsed tree" if lim.get("nested") else "a directly constructed instance"
+        if st["op"] == "reparse":
+            if lim.get("ok") is not True:
+                return f"a sub-value taken out of an accepted tree is not accepted unchanged when parsed on its own ({_short(lim)})"
+            return None
+        fname = step_field(classes, st)
+        limits = [limit_of(classes, k) for k in range(len(classes))]
+
+        def sub(r):       # the instance with the assigned field: the instance is level 1 of what the setter parses
+            return {"k": st["cls"], "f": [[fname, r]]}
+
+        if "escape" in lim:
+            return f"{st['op']} on {where} ended in {lim['escape']} instead of a verdict"
+        if "ok" in lim and not res_within(classes, sub(lim["ok"])):
+            return (f"{st['op']} on {where} accepted a value whose data-class nesting (with the instance) "
+                    f"{1 + res_depth(lim['ok'])} exceeds max_depth {limits}")
+        if unl is not None:
+            if "ok" in lim and "ok" not in unl:
+                return f"{st['op']} accepted with max_depth but rejected without any limit"
+            if "ok" in unl and res_within(classes, sub(unl["ok"])) and ("ok" not in lim or lim["ok"] != unl["ok"]):
+                return (f"{st['op']} on {where}: the assigned value has nesting depth {res_depth(unl['ok'])} (with the instance "
+                        f"{1 + res_depth(unl['ok'])}), within max_depth {limits}, but is {_short(lim)}")
+        if fresh is not None and lim.get("nested"):
+            a = ("ok", lim["ok"]) if "ok" in lim else ("rejected",)
+            b = ("ok", fresh["ok"]) if "ok" in fresh else ("rejected",)
+            if a != b:
+                return (f"{st['op']}: the same assignment is {_short(lim)} on an instance taken out of a parsed tree and "
+                        f"{_short(fresh)} on a directly constructed one — the limit depends on where the instance came from")
+        probe = {"d": [[fname, norm(st["value"])]]}
+        for which, o in (("assignment, declared limits", lim), ("assignment, limits removed", unl)):
+            why = self.cost_verdict(classes, probe, o, which)
+            if why:
+                return why
         return None
 
     def classify(self, case, io, why):
@@ -1202,8 +1420,9 @@ class C18(Check):
         return out
 
     def key(self, case, io):
-        if case.get("cyc") or dict_nesting(norm(case["value"])) >= 2 or case.get("fam", "").startswith("nested-union"):
-            return json.dumps([case["classes"], case["value"], case.get("entry")], sort_keys=True)
+        if case.get("cyc") or dict_nesting(norm(case["value"])) >= 2 or case.get("fam", "").startswith("nested-union") \
+                or case.get("steps"):
+            return json.dumps([case["classes"], case["value"], case.get("entry"), case.get("steps")], sort_keys=True)
         return None
 
     def distribution(self, case, io):
